@@ -88,10 +88,10 @@ Definition lookup_path_eqb (a b : lookup path) : bool :=
 
 (* C12: from a store satisfying the invariant, a faulty Put leaves the invariant, sound lookups,
    files named by GetFile holding exactly the bytes with the reported OutputID, and the lookups
-   of all other ids as they were *)
-Definition c12_holds_on (U ids : list bytes) (fs : files) (b : budget) (id : bytes) (rd : reader) (tm : Z) : bool :=
+   of all other ids as they were.  [c12_post_holds_on] is the statement about a given pair of
+   states (the driver passes the post-state it has computed anyway). *)
+Definition c12_post_holds_on (U ids : list bytes) (fs fs' : files) (id : bytes) : bool :=
   if negb (inv_holds_on U ids fs) then true else
-  let fs' := fst (fst (run_f b (put_prog H id rd tm) fs)) in
   inv_holds_on U ids fs' && c05_holds_on fs' ids &&
   forallb (fun i =>
     (match get_file fs' i with
@@ -101,5 +101,8 @@ Definition c12_holds_on (U ids : list bytes) (fs : files) (b : budget) (id : byt
     (if bytes_eqb i id then true else
        entry_eqb (get fs' i) (get fs i) && lookup_bytes_eqb (get_bytes H fs' i) (get_bytes H fs i) &&
        lookup_path_eqb (get_file fs' i) (get_file fs i))) ids.
+
+Definition c12_holds_on (U ids : list bytes) (fs : files) (b : budget) (id : bytes) (rd : reader) (tm : Z) : bool :=
+  c12_post_holds_on U ids fs (fst (fst (run_f b (put_prog H id rd tm) fs))) id.
 
 End Holds.
